@@ -8,7 +8,7 @@ FOR C1% = 1 TO 4 STEP 2
   CASE IS > 5
     T% = T% + 1
     PRINT "2b"; T%
-  CASE 2, 3
+  CASE 2, 3 TO 3, 4
     T% = T% + 1
     PRINT "2c"; T%
   CASE ELSE
